@@ -327,8 +327,8 @@ func (p *Proxy) handle(conn net.Conn) {
 		preparedSystemQuery: make(map[[preparedIdSize]byte]interface{}),
 		codec:               codecs.CustomRawCodec,
 	}
-	p.addClient(cl)
 	cl.conn = proxycore.NewConn(conn, cl)
+	p.addClient(cl) // Only after the connection is set, Close() uses it for every registered client
 	cl.conn.Start()
 }
 
